@@ -275,8 +275,21 @@ func beOctets(vals []*Expr) (*Expr, bool) {
 			return nil, false
 		}
 	}
-	if x == nil || !intTypeInfo(x.Typ).ok || int64(intTypeInfo(x.Typ).bits) != 8*n {
+	if x == nil || !intTypeInfo(x.Typ).ok || int64(intTypeInfo(x.Typ).bits) < 8*n {
 		return nil, false
+	}
+	if int64(intTypeInfo(x.Typ).bits) > 8*n {
+		// the low n octets of a wider value: the encoding of its truncation
+		var to types.Type
+		switch n {
+		case 2:
+			to = types.Typ[types.Uint16]
+		case 4:
+			to = types.Typ[types.Uint32]
+		default:
+			return nil, false
+		}
+		return mkConv(to, x), true
 	}
 	return x, true
 }
